@@ -53,13 +53,14 @@ func worldNF(base string, c cs, target string) (*cfgnf.NF, error) {
 	}
 	defer w.Close()
 	p := w.P
+	allowAll := map[string]string{
+		"external-has-lua": "true", "cross-namespace-secrets-crt": "allow", "cross-namespace-secrets-ca": "allow",
+		"cross-namespace-secrets-passwd": "allow", "cross-namespace-services": "allow"}
 	settings := map[string]string{
 		"external-has-lua": "true", "cross-namespace-secrets-crt": val(c.Crt), "cross-namespace-secrets-ca": val(c.CA),
 		"cross-namespace-secrets-passwd": val(c.Passwd), "cross-namespace-services": val(c.Services)}
 	if c.Prev == "allow" {
-		p.Apply(kobj.ConfigMap("ingress", "cfg", map[string]string{
-			"external-has-lua": "true", "cross-namespace-secrets-crt": "allow", "cross-namespace-secrets-ca": "allow",
-			"cross-namespace-secrets-passwd": "allow", "cross-namespace-services": "allow"}))
+		p.Apply(kobj.ConfigMap("ingress", "cfg", allowAll))
 	} else {
 		p.Apply(kobj.ConfigMap("ingress", "cfg", settings))
 	}
@@ -98,8 +99,11 @@ func worldNF(base string, c cs, target string) (*cfgnf.NF, error) {
 			[]kobj.Rule{{Host: "b.local", Paths: []kobj.Path{{Path: "/", Svc: "obj", Port: "8080"}}}}, owntls, nil))
 	}
 	ref := "b/" + target
-	if c.Form == "secret://ns/name" {
+	switch c.Form {
+	case "secret://ns/name":
 		ref = "secret://b/" + target
+	case "file://ns/name":
+		ref = "file://b/" + target
 	}
 	ann := map[string]string{"ssl-redirect": "false"}
 	var tls []kobj.TLS
@@ -138,8 +142,16 @@ func worldNF(base string, c cs, target string) (*cfgnf.NF, error) {
 	if _, err := p.ReconcilePending(false); err != nil {
 		return nil, err
 	}
-	if c.Prev == "allow" {
+	switch c.Prev {
+	case "allow":
 		// the settings under test replace the permissive ones
+		p.Apply(kobj.ConfigMap("ingress", "cfg", settings))
+		if _, err := p.ReconcilePending(false); err != nil {
+			return nil, err
+		}
+	case "flip":
+		// granted and revoked again before the next reconciliation takes its batch
+		p.Apply(kobj.ConfigMap("ingress", "cfg", allowAll))
 		p.Apply(kobj.ConfigMap("ingress", "cfg", settings))
 		if _, err := p.ReconcilePending(false); err != nil {
 			return nil, err
